@@ -5,7 +5,7 @@ from props import _cluster as K
 
 def run(tier, seed, update_lock=False):
     R = Run('C09', 'proof', tier, seed)
-    units = K.kmedoids_units(R.excluded())
+    units = K.kmedoids_units(R.excluded()) + [K.util_unit()]      # the sweeps rely on assign_to_nearest_center / find_cluster_centers: their own obligations belong here too
     for u in units:
         R.prove(u)
     for u in units:
